@@ -164,14 +164,12 @@ def file_accessor_part(R, quick):
                         if got != want:
                             existed = want[0] == "ok"
                             overwrite = op[4] if op[0] == "sf" else op[5]
-                            if got == ["Crash", "EOFError"] and "truncated-gz-eoferror" in known:
-                                R.known("truncated-gz-eoferror")
-                            elif existed and overwrite and events[k][0] in ("write", "close") \
+                            if existed and overwrite and events[k][0] in ("write", "close") \
                                     and "overwrite-not-atomic" in known:
                                 R.known("overwrite-not-atomic")
                             elif not existed and got[0] == "ok" and is_prefix_of(got[1], op[2] if op[0] == "sf" else op[3]):
                                 R.count("fa:fault:partial-new-file-readable")
-                            elif got[0] != "ok" and got != ["Crash", "EOFError"]:
+                            elif got in (["AccessErr"], ["IOErr"]):
                                 R.count("fa:fault:leftover-detected:" + got[0])
                             else:
                                 R.violation("after a failed store the name reads as neither its old nor (a prefix of) "
@@ -216,9 +214,7 @@ def file_accessor_part(R, quick):
                     ok = (got == old or (got[0] == "ok" and is_prefix_of(got[1], new_bytes))
                           or got in (["AccessErr"], ["IOErr"]))
                     if not ok:
-                        if got in (["Crash", "EOFError"], ["Crash", "ZlibError"]) and "truncated-gz-eoferror" in known:
-                            R.known("truncated-gz-eoferror")
-                        else:
+                        if True:
                             R.violation("after an interruption the reader returns something that is neither the old "
                                         "content, nor a prefix of the new one, nor an error", case,
                                         {"old": h12._short(old), "got": h12._short(got)})
@@ -382,8 +378,13 @@ def http_part(R, quick):
             name = hex(int(skey))[2:].rjust(-(-triple[2] // 4), "0")
             acc = accessor.get_accessor_for_url(url)
             site.reset()
-            h14.run_impl(lambda: acc.fetch_chunk("1mm", tuple(co)))
+            good = h14.run_impl(lambda: acc.fetch_chunk("1mm", tuple(co)))
             nreq = len(site.log)
+            wloc = h14.local_locate(ds, "1mm", co)
+            if good != ["ok", bytes([co[0] + co[2] + 1]) * 9]:
+                R.violation("fault-free sharded HTTP fetch does not return the stored chunk",
+                            {"accessor": "sharded-http", "triple": list(triple), "legacy": legacy, "chunk": co},
+                            {"impl": h12._short(good)})
             for k in range(nreq):
                 for beh in behs:
                     script = ["normal"] * k + [beh]
@@ -395,19 +396,11 @@ def http_part(R, quick):
                     R.case(case, nontrivial=True)
                     R.count(f"http:sharded:{beh if isinstance(beh, str) else beh[1]}:"
                             f"{out[0] if out[0] != 'Crash' else out[1]}")
-                    reqs.append(("hs_fetch", [sc, h14.wire_script(script), tree, False, b(s.url + "/ds/1mm/"), b(name),
-                                              hl, cmc, Atom("IOErr")]))
+                    reqs.append(("hs_fetch", [sc, h14.wire_script(script), tree, b(s.url + "/ds/1mm/"), b(name),
+                                              hl, cmc, wloc]))
                     pend.append((case, out))
-                    if out in (["IOErr"], ["AccessErr"]):
+                    if out in (["IOErr"], ["AccessErr"]) or out == good:
                         continue
-                    gets = [e for e in site.log if e[0] == "GET"]
-                    if out == ["Crash", "AssertionError"]:
-                        if not gets and "missing-shard-assertion" in known:
-                            R.known("missing-shard-assertion")
-                            continue
-                        if gets and "sharded-http-minishard-dict" in known:
-                            R.known("sharded-http-minishard-dict")
-                            continue
                     R.violation("HTTP failure during a sharded fetch surfaced as something else than a data-access / "
                                 "I/O error", case, {"impl": h12._short(out)})
     rep = R.model.batch(reqs)
